@@ -191,9 +191,8 @@ Proof.
   split_ifs; [f_equal; lia|lia].
 Qed.
 
-(** The 1.x meaning of bare suffixes is lost on SSizeV1 after a leading newline
-    (bareIECSuffixRe's [.] does not match '\n', so the text reaches humanize unchanged,
-    where bare k/m/g are SI). *)
+(** With the (?s) repair the 1.x binary meaning of bare suffixes also holds after a
+    leading newline (before it, "\n1k" reached humanize unchanged and meant 1000). *)
 Lemma ssizev1_newline_witness :
-  unmarshal_v1 true [10; 49; 107] = Some 1000%Z /\ unmarshal_v1 true [32; 49; 107] = Some 1024%Z.
-Proof. split; vm_compute; reflexivity. Qed.
+  unmarshal_v1 true [10; 49; 107] = Some 1024%Z /\ unmarshal_v1 false [10; 49; 107] = Some 1024%Z /\ unmarshal_v1 true [32; 10; 32; 50; 32; 32; 103; 10] = Some 2147483648%Z.
+Proof. repeat split; vm_compute; reflexivity. Qed.
